@@ -353,6 +353,8 @@ pub enum Fate {
     Corrupt(i64, u8),
     Truncate(usize),
     Extend(usize),
+    /// re-encode a padded single-packet Initial datagram so that the datagram has this size
+    Shrink(usize),
 }
 
 pub fn parse_fate(s: &str) -> Fate {
@@ -368,6 +370,7 @@ pub fn parse_fate(s: &str) -> Fate {
         ),
         "trunc" => Fate::Truncate(it.next().unwrap().parse().unwrap()),
         "ext" => Fate::Extend(it.next().unwrap().parse().unwrap()),
+        "shrink" => Fate::Shrink(it.next().unwrap().parse().unwrap()),
         o => panic!("unknown fate {o}"),
     }
 }
@@ -444,6 +447,8 @@ pub struct World {
     pub mitm: Option<Box<dyn FnMut(&mut Dgram, &[Pkt], &mut MitmCtx) + Send>>,
     pub probe_level: u8,
     pub max_trace: usize,
+    /// id of the datagram currently being delivered
+    pub cur_rx_id: i64,
     /// connection IDs each endpoint has issued on the wire (handshake SCIDs, NEW_CONNECTION_ID)
     pub issued: Vec<Vec<Vec<u8>>>,
     pub client_tcfg: Arc<TransportConfig>,
@@ -637,6 +642,7 @@ impl World {
             mitm: None,
             probe_level: 1,
             max_trace: 60_000,
+            cur_rx_id: -1,
             issued: Vec::new(),
             client_tcfg,
             token_store: None,
@@ -889,6 +895,13 @@ impl World {
                 d.cls = "corrupt";
                 self.enqueue(d);
             }
+            Fate::Shrink(k) => {
+                if let Some(nd) = shrink_initial(&d.data, pkts, *k) {
+                    d.data = nd;
+                    d.cls = "shrunk";
+                }
+                self.enqueue(d);
+            }
         }
         (id, fate)
     }
@@ -1007,6 +1020,7 @@ impl World {
 
     /// Send an endpoint-generated response (stateless reset, VN, retry, refusal)
     fn send_response(&mut self, n: usize, t: quinn_proto::Transmit, buf: &[u8], why: &str, incite: i64) {
+        let incite_id = self.cur_rx_id;
         let data = buf[..t.size].to_vec();
         let mut ctx = self.nodes[n].resp_tx.clone();
         ctx.next_pn = [0; 3];
@@ -1016,7 +1030,7 @@ impl World {
         let tnow = self.now_us;
         self.trace.push(json!({
             "ev":"Resp","t":tnow,"n":n,"dst":addr_id(t.destination),"size":size,"why":why,
-            "incite":incite,"id":id,"fate":fate_str(&fate),
+            "incite":incite,"incite_id":incite_id,"id":id,"fate":fate_str(&fate),
             "pkts":pkts.iter().map(pkt_json).collect::<Vec<_>>(),
         }));
     }
@@ -1032,6 +1046,7 @@ impl World {
             return;
         };
         let now = self.now();
+        self.cur_rx_id = d.id as i64;
         let mut buf = Vec::new();
         let size = d.data.len();
         let data = BytesMut::from(&d.data[..]);
@@ -1480,6 +1495,7 @@ pub fn fate_str(f: &Fate) -> String {
         Fate::Corrupt(..) => "corrupt".into(),
         Fate::Truncate(_) => "trunc".into(),
         Fate::Extend(_) => "ext".into(),
+        Fate::Shrink(_) => "shrink".into(),
     }
 }
 
@@ -1731,6 +1747,49 @@ pub fn retag(dgram: &mut [u8], pkt: &Pkt, key: KeyId) {
     let (ps, pe) = pkt.payload_range();
     let tag = toycrypto::packet_tag(key, pkt.pn, &dgram[pkt.start..ps], &dgram[ps..pe]);
     dgram[pe..pe + wire::TAG].copy_from_slice(&tag);
+}
+
+/// Remove padding from a datagram consisting of one client Initial packet so that it is `size`
+/// bytes long (never shorter than its non-padding frames allow), with a valid length field and tag.
+pub fn shrink_initial(d: &[u8], pkts: &[Pkt], size: usize) -> Option<Vec<u8>> {
+    if pkts.len() != 1 || pkts[0].ty != PType::Initial {
+        return None;
+    }
+    let p = &pkts[0];
+    let (lf_at, lf_sz) = p.len_field?;
+    let (ps, pe) = p.payload_range();
+    // keep everything up to the trailing padding
+    let mut keep = pe;
+    while keep > ps && d[keep - 1] == 0 {
+        keep -= 1;
+    }
+    let min_total = keep + wire::TAG;
+    let total = size.max(min_total).min(d.len());
+    let payload_len = total - wire::TAG - ps;
+    let mut out = d[..ps].to_vec();
+    out.extend_from_slice(&d[ps..ps + payload_len.min(pe - ps)]);
+    while out.len() < ps + payload_len {
+        out.push(0);
+    }
+    // length field = pn_len + payload + tag, same encoded size
+    let length = (p.pn_len + payload_len + wire::TAG) as u64;
+    let mut enc = Vec::new();
+    match lf_sz {
+        1 => enc.push(length as u8),
+        2 => enc.extend_from_slice(&((length as u16) | 0x4000).to_be_bytes()),
+        4 => enc.extend_from_slice(&((length as u32) | 0x8000_0000).to_be_bytes()),
+        _ => enc.extend_from_slice(&(length | 0xc000_0000_0000_0000).to_be_bytes()),
+    }
+    if (lf_sz == 1 && length >= 64) || (lf_sz == 2 && length >= 16384) {
+        return None;
+    }
+    out[lf_at..lf_at + lf_sz].copy_from_slice(&enc);
+    out.extend_from_slice(&[0u8; wire::TAG]);
+    let key = toycrypto::key_id(toycrypto::initial_secret(&p.dcid), toycrypto::LVL_INITIAL, 0, 0);
+    let mut p2 = p.clone();
+    p2.len = out.len();
+    retag(&mut out, &p2, key);
+    Some(out)
 }
 
 /// Append frame bytes to the last (short-header) packet of a datagram and re-tag it.
